@@ -3,6 +3,7 @@ package suites
 import (
 	"fmt"
 	"math/rand"
+	"os"
 	"sort"
 	"strconv"
 	"strings"
@@ -156,6 +157,31 @@ var (
 
 const wireMaxLen = 395 // DefaultMaxLineLength - DefaultMaxPrefixLength
 
+const wireSyncTimeout = 60 * time.Second
+
+var wireSyncFails int
+
+// A client that stopped writing costs wireSyncTimeout per case. Once that has happened
+// twice in a process, a flag file keyed by the parent process (the bin/check run) tells
+// this and later gircx processes of the same run (shrinking, search) to wait only 1s.
+func wireSyncFlag() string {
+	ppid := os.Getppid()
+	start := "0" // the parent's start time, so that a recycled pid is not mistaken for it
+	if b, err := os.ReadFile(fmt.Sprintf("/proc/%d/stat", ppid)); err == nil {
+		if i := strings.LastIndexByte(string(b), ')'); i >= 0 {
+			if f := strings.Fields(string(b)[i+1:]); len(f) > 19 {
+				start = f[19]
+			}
+		}
+	}
+	return fmt.Sprintf("%s/girc-c03-syncdead-%d-%s", os.TempDir(), ppid, start)
+}
+
+func wireSyncSeenBefore() bool {
+	st, err := os.Stat(wireSyncFlag())
+	return err == nil && time.Since(st.ModTime()) < time.Hour
+}
+
 // wireSession returns the (lazily started) client of a variant: "0" no capability
 // negotiated, "1" message-tags acknowledged. A dead session is replaced.
 func wireSession(variant string) *wireSess {
@@ -199,17 +225,29 @@ func (x *wireSess) kill() {
 // (each up to and including its LF) the peer received since mark, before the marker.
 func (x *wireSess) flush(mark int) (pieces []string, ok bool) {
 	x.n++
-	marker := "VSYNC " + x.tok + strconv.Itoa(x.n) + "\r\n"
+	marker := "VSYNC " + x.tok + strconv.Itoa(x.n)
 	x.s.C.Send(&girc.Event{Command: "VSYNC", Params: []string{x.tok + strconv.Itoa(x.n)}})
-	deadline := time.Now().Add(5 * time.Second)
+	// the marker normally arrives within microseconds; the bound is only there so that a
+	// client that stopped writing is reported instead of hanging the run (and once that
+	// has happened twice, later cases do not wait long again)
+	timeout := wireSyncTimeout
+	if wireSyncFails >= 2 || wireSyncSeenBefore() {
+		timeout = time.Second
+	}
+	deadline := time.Now().Add(timeout)
 	for {
 		lines := x.s.Since(mark)
 		for i, l := range lines {
-			if l == marker {
+			// whatever terminator the marker got: the pieces before it are judged
+			if strings.TrimRight(l, "\r\n") == marker {
 				return lines[:i], true
 			}
 		}
 		if time.Now().After(deadline) {
+			wireSyncFails++
+			if wireSyncFails >= 2 {
+				os.WriteFile(wireSyncFlag(), []byte("sync lost\n"), 0o644)
+			}
 			return lines, false
 		}
 		time.Sleep(20 * time.Microsecond)
@@ -643,7 +681,7 @@ func runHelperCase(c Case) Result {
 	}
 	if !synced {
 		x.kill()
-		res.Oracle = "wire-sync: the client stopped writing (marker not seen within 5s)"
+		res.Oracle = "wire-sync: the client stopped writing (marker not seen within 60s)"
 		return res
 	}
 	// the property on the implementation
@@ -804,6 +842,10 @@ func genTags(r *rand.Rand) girc.Tags {
 		return girc.Tags{}
 	case 5: // over the 4094 limit, by one huge value or by many tags
 		t := girc.Tags{}
+		if r.Intn(3) != 0 { // (kept rare: such a case is 8 KB of hex)
+			t[Pick(r, "a", "+x")] = Pick(r, "", "v")
+			return t
+		}
 		if r.Intn(2) == 0 {
 			t[Pick(r, "a", "zz")] = strings.Repeat("v", 4080+r.Intn(30))
 			t["b"] = Pick(r, "", "x")
@@ -967,7 +1009,7 @@ func runEventCase(c Case) Result {
 	res := Result{Obs: fmtPieces(pieces), Sig: sig}
 	if !synced {
 		x.kill()
-		res.Oracle = "wire-sync: the client stopped writing (marker not seen within 5s)"
+		res.Oracle = "wire-sync: the client stopped writing (marker not seen within 60s)"
 		return res
 	}
 	for _, p := range pieces {
